@@ -10,6 +10,7 @@ from .common import Case
 
 OWNERS = ['c02', 'c03', 'c04', 'c05', 'c06', 'c07', 'c08', 'c09', 'c10', 'c13', 'c14', 'c16', 'c17', 'c20']
 COQCHK = False
+BORROWS_CASES = True   # cases come from the other properties; a case inside an OPEN finding of its owner is left to the owner
 
 def _mods():
     out = []
